@@ -220,7 +220,7 @@ def _job(u, case, tier, canary, wd, res):
     if not os.environ.get("VERIF_NO_CACHE"):
         key = cache_key(u, defs, {k: (case.get("unwind") if k == "case_unwind" else str(canary) if k == "canary_mode" else u.get(k)) for k in ("case_unwind", "canary_mode", "function", "replace", "unwind", "unwind_" + tier, "unwindset", "unwindset_" + tier,
                                                          "object_bits", "solver", "extra_cbmc", "malloc_may_fail", "leak_check",
-                                                         "loop_contracts", "remove_function_pointers")})
+                                                         "loop_contracts", "remove_function_pointers", "replace_calls", "plain")})
         cf_ = os.path.join(CACHE, (key or "x") + ".json")
 
         def from_cache():
@@ -290,6 +290,12 @@ def _job_run(u, case, tier, canary, wd, res, defs):
         if rc != 0:
             raise Infra("remove-function-pointers failed: " + (txt or "")[-1500:])
         cur = "u_fp.gb"
+    if u.get("replace_calls"):
+        # harness-checked units: calls to f are redirected to a model body g written in the unit ("f:g")
+        rc, txt, _ = run(["goto-instrument"] + sum([["--replace-calls", x] for x in u["replace_calls"]], []) + [cur, "u_rc.gb"], wd, 300, 8)
+        if rc != 0:
+            raise Infra("replace-calls failed: " + (txt or "")[-1500:])
+        cur = "u_rc.gb"
     if u.get("plain"):
         # supporting facts about constant data (label strings, DER prefixes ...): a plain cbmc run of the
         # harness with the program's own static initialisers (DFCC would havoc them); obligations are the
